@@ -16,7 +16,10 @@
 using namespace vf;
 typedef bxdecay0_g4::PrimaryGeneratorAction PGA;
 
-struct Case { PGA::ConfigurationInterface cf; int vkind = 0; /*0 none 1 unique 2 scripted 3 exhausted*/ G4ThreeVector pos; int nev = 1; std::string nclass; };
+struct Case { PGA::ConfigurationInterface cf; int vkind = 0; /*0 none 1 unique 2 scripted 3 exhausted 4 heap generator lent by reference 5 heap generator handed over by pointer*/ G4ThreeVector pos; int nev = 1; std::string nclass; bool detach_first = false; };
+// a vertex generator that records its own destruction: one LENT by reference must outlive the action, whatever was attached or detached before
+struct LentVG : public bxdecay0_g4::VertexGeneratorInterface { G4ThreeVector p; int * deaths; LentVG(const G4ThreeVector & p_, int * d) : p(p_), deaths(d) {} ~LentVG() override { (*deaths)++; } void ShootVertex(G4ThreeVector & v) override { v = p; } };
+struct VGBook { std::vector<LentVG *> lent; std::vector<int *> lent_deaths; };
 
 struct ScriptedVG : public bxdecay0_g4::VertexGeneratorInterface
 {
@@ -83,10 +86,21 @@ static bool init_finishes(const Case & c)
 
 // One action object is driven through a SEQUENCE of requests (SetConfiguration, optionally DestroyConfiguration in between):
 // every step must behave as a fresh action would for that request.
+static Res run_steps_on(PGA & action, VGBook & book, const std::vector<Case> & steps, const std::vector<int> & destroy_before);
 static Res run_steps(const std::vector<Case> & steps, const std::vector<int> & destroy_before)
 {
+  VGBook book; Res r;
+  { PGA action(0); r = run_steps_on(action, book, steps, destroy_before); }   // the action is destroyed here
+  for (size_t i = 0; i < book.lent.size(); i++) {
+    if (*book.lent_deaths[i] != 0) { if (r.ok) { r.ok = false; r.cls = "lent-vertex-generator-deleted"; r.msg = "a vertex generator passed BY REFERENCE was deleted by the action (it stays the caller's; only one passed by pointer is handed over)"; } }
+    else delete book.lent[i];
+    delete book.lent_deaths[i];
+  }
+  return r;
+}
+static Res run_steps_on(PGA & action, VGBook & book, const std::vector<Case> & steps, const std::vector<int> & destroy_before)
+{
   Res r; auto fail = [&](const std::string & cls, const std::string & m) { if (r.ok) { r.ok = false; r.cls = cls; r.msg = m; } return r; };
-  PGA action(0);
   ScriptedVG svg; bxdecay0_g4::UniquePointVertexGenerator upvg;
   std::string nt;
   for (size_t si = 0; si < steps.size(); si++) {
@@ -100,11 +114,14 @@ static Res run_steps(const std::vector<Case> & steps, const std::vector<int> & d
     if (destroy_before[si]) action.DestroyConfiguration();
     action.SetConfiguration(c.cf);
     svg.seq.clear(); svg.k = 0; svg.exhausted = false; upvg.SetSourcePosition(c.pos);
+    if (c.detach_first) action.SetVertexGenerator((bxdecay0_g4::VertexGeneratorInterface *)nullptr);   // detach whatever was attached ("origin if none")
     if (c.vkind == 1) action.SetVertexGenerator(upvg);
+    else if (c.vkind == 4) { int * d = new int(0); LentVG * g = new LentVG(c.pos, d); book.lent.push_back(g); book.lent_deaths.push_back(d); action.SetVertexGenerator(*g); }
+    else if (c.vkind == 5) { static int sink = 0; action.SetVertexGenerator(new LentVG(c.pos, &sink)); }
     else if (c.vkind >= 2) { for (int k = 0; k < c.nev; k++) svg.seq.push_back(G4ThreeVector(c.pos.x() + k, c.pos.y() - 2 * k, c.pos.z() + 0.5 * k)); if (c.vkind == 3) svg.exhausted = true; action.SetVertexGenerator(svg); }
-    else { static struct Origin : public bxdecay0_g4::VertexGeneratorInterface { void ShootVertex(G4ThreeVector & v) override { v = G4ThreeVector(0, 0, 0); } } origin; if (si > 0) action.SetVertexGenerator(origin); }
+    else { static struct Origin : public bxdecay0_g4::VertexGeneratorInterface { void ShootVertex(G4ThreeVector & v) override { v = G4ThreeVector(0, 0, 0); } } origin; if (si > 0 && !c.detach_first) action.SetVertexGenerator(origin); }
     for (int k = 0; k < c.nev; k++) {
-      vtx.push_back(c.vkind == 0 ? G4ThreeVector(0, 0, 0) : (c.vkind == 1 ? c.pos : svg.seq[k]));
+      vtx.push_back(c.vkind == 0 ? G4ThreeVector(0, 0, 0) : ((c.vkind == 1 || c.vkind >= 4) ? c.pos : svg.seq[k]));
       try { action.GeneratePrimaries(&evs[k]); } catch (std::exception & e) { threw = true; what = e.what(); break; }
     }
     int aborts = G4RunManager::GetRunManager()->abort_count; size_t nprim = 0; for (auto & e : evs) nprim += e.primaries.size();
@@ -152,7 +169,7 @@ static Case gen_case(uint64_t h)
     if (r.chance(0.35)) { f.nuclide = r.pick(dbd); f.dbd_level = r.chance(0.6) ? 0 : r.range(1, 4); f.dbd_mode = r.range(1, 20); c.nclass = "generated-level-mode"; } }
   else f.nuclide = r.pick(bkg);
   f.seed = r.chance(0.6) ? r.range(1, 1000000) : (int[]){1, 42, 314159, 2147483647}[r.range(0, 3)];
-  c.nev = r.range(1, 4); c.vkind = r.range(0, 2); if (r.chance(0.05)) c.vkind = 3; c.pos = G4ThreeVector(r.uniform(-50, 50), r.uniform(-50, 50), r.uniform(-50, 50));
+  c.nev = r.range(1, 4); c.vkind = r.range(0, 2); if (r.chance(0.05)) c.vkind = 3; else if (r.chance(0.3)) c.vkind = r.range(4, 5); c.detach_first = r.chance(0.3); c.pos = G4ThreeVector(r.uniform(-50, 50), r.uniform(-50, 50), r.uniform(-50, 50));
   if (r.chance(0.2)) { f.use_mdl = true; static const char * nm[] = {"e-", "gamma", "all", "*", "alpha", "e+"}; f.mdl_target_name = nm[r.range(0, 5)]; f.mdl_target_rank = r.range(-1, 2); f.mdl_cone_longitude = r.uniform(0, 360); f.mdl_cone_colatitude = r.uniform(0, 180); f.mdl_cone_aperture = r.uniform(0, 80); if (r.chance(0.3)) f.mdl_cone_aperture2 = r.uniform(1, 80); }
   // mutations
   int nm = r.chance(0.45) ? 0 : r.range(1, 2);
